@@ -205,9 +205,10 @@ static const char *opname[] = { "put(a)", "put(b)", "get", "clear", "override(on
         memset(&m, 0, sizeof m);                                                                                    \
         m.cap = cap;                                                                                                \
         NAME##_init(&rb, data, cap);                                                                                \
-        TYPE bydata[3];                                                                                             \
+        /* the second ring's capacity is a power of two when the first one's is not, and the other way round */   \
+        TYPE bydata[4];                                                                                             \
         NAME by;                                                                                                    \
-        NAME##_init(&by, bydata, 3);                                                                                \
+        NAME##_init(&by, bydata, (cap & (cap - 1)) ? 4 : 3);                                                        \
         uint64_t next = 1;                                                                                          \
         int bias = (int)vh_below(r, 3); /* fill-heavy, drain-heavy, balanced */                                     \
         char hist[200];                                                                                             \
